@@ -147,6 +147,27 @@ func printfRule(w *World, r *Result, rel string) int {
 				}
 			}
 			if formats == nil {
+				// a local every definition of which is a constant string: one of those constants
+				if id := identOf(call.Args[first]); id != nil {
+					if host := funcContaining(call); host != nil && paramIndex(host, objOf(info, id)) < 0 {
+						ds := defsIn(info, host.Decl, objOf(info, id))
+						all := len(ds) > 0
+						var fs []string
+						for _, d := range ds {
+							dtv := info.Types[d]
+							if dtv.Value == nil || dtv.Value.Kind() != constant.String {
+								all = false
+								break
+							}
+							fs = append(fs, constant.StringVal(dtv.Value))
+						}
+						if all {
+							formats = fs
+						}
+					}
+				}
+			}
+			if formats == nil {
 				n++
 				fname := "?"
 				for _, fi := range sortedFuncs(w) {
